@@ -1,9 +1,9 @@
 """Type prelude shared by generated test modules (``from vf_prelude import *``) and by the
 harness, so both sides hold the same class objects."""
 
-from collections import defaultdict, namedtuple
+from collections import Counter, OrderedDict, defaultdict, namedtuple
 from dataclasses import InitVar, dataclass, field
-from enum import Enum, Flag, IntEnum
+from enum import Enum, Flag, IntEnum, IntFlag
 from decimal import Decimal
 from math import inf, nan
 from typing import Any, NamedTuple
@@ -28,6 +28,13 @@ class Perm(Flag):
     R = 1
     W = 2
     X = 4
+
+
+class IPerm(IntFlag):
+    """12 = R | an unnamed bit"""
+
+    R = 4
+    W = 2
 
 
 class Outer:
@@ -272,5 +279,5 @@ def mutate_in_place(v, depth=0):
 __all__ = [
     "IdentityEq", "LossyCopy", "SelfCopy", "Decimal", "nan", "mutate_in_place", "APriv", "PAlias", "DInit", "make_dinit",
     "Color", "Level", "Perm", "Outer", "Point", "FPoint", "Box", "APoint", "AFrozen",
-    "PModel", "NT", "TNT", "Opaque", "Vec", "defaultdict", "inf", "Hidden", "AHidden", "PHidden", "PExtra", "IVar", "SubPoint", "Point3",
+    "PModel", "NT", "TNT", "Opaque", "Vec", "defaultdict", "inf", "Hidden", "AHidden", "PHidden", "PExtra", "IVar", "SubPoint", "Point3", "IPerm", "OrderedDict", "Counter",
 ]
